@@ -261,11 +261,12 @@ def run(tier: str, seed: int) -> int:
     v = Verdict("C06", tier, seed)
     _workdir()            # before any worker is forked
     if tier == "quick":
-        plans = [("polar", "single", "few", 1.0), ("cartesian", "single", "few", 0.5), ("five", "single", "none", 0.2),
+        plans = [("polar", "single", "few", 1.0), ("cartesian", "single", "few", 0.5), ("five", "single", "none", 0.2), ("five-marked", "single", "none", 0.15),
                  ("cartesian", "product", "few", 0.01), ("instrument", "single", "none", 1.0)]
     else:
         plans = [("polar", "single", "none", 0.3), ("polar", "product", "few", 0.2), ("cartesian", "single", "nosuffix", 0.3),
-                 ("cartesian", "product", "few", 0.1), ("five", "single", "none", 1.0), ("instrument", "single", "none", 1.0)]
+                 ("cartesian", "product", "few", 0.1), ("five", "single", "none", 1.0), ("five-marked", "single", "none", 1.0),
+                 ("instrument", "single", "none", 1.0)]
     first = True
     try:
         for layout, mode, reduce, sample in plans:
